@@ -6,13 +6,14 @@ import tree_common as T
 from wire import enc_str
 
 # which ops the Lean model implements (extended as the model grows)
-MODEL_OPS = {}
+MODEL_OPS = {'xml': True, 'jigg': True, 'read_xml': True, 'read_jigg': True, 'normalize': True}
 
 
 def canon(el):
     """canonical one-line form of an element tree: tag, ordered attributes, children"""
-    out = ['E', enc_str(el.tag), str(len(el.attrib))]
-    for k, v in el.attrib.items():
+    items = [(k, v) for k, v in el.attrib.items() if not (el.tag == 'ccg' and k == 'score')]
+    out = ['E', enc_str(el.tag), str(len(items))]
+    for k, v in items:
         out += [enc_str(k), enc_str(v)]
     kids = list(el)
     out.append(str(len(kids)))
